@@ -3,6 +3,7 @@ import VM.Impl.SpecRules
 import VM.Impl.Defaults
 import VM.Impl.Simple
 import VM.Impl.SpecModel
+import VM.Properties.C07
 import VM.Driver.SchemaFam
 import VM.Generated.SwaggerSchema
 open Lean
@@ -201,6 +202,8 @@ def runSpecCase (j : Json) : Json :=
           ("warnsEq", Json.bool ((specValidate cont st).2.errors.length == r.warnings.length))]
       Json.mkObj [("cont", one true), ("stop", one false)]),
     ("localRefsOk", Json.bool localRefsOk),
+    -- the hypotheses of C07_whole_model_no_panic_exec hold for this document
+    ("viewClosed", Json.bool (C07.viewClosed v0 v)),
     ("nops", Json.num (JsonNumber.fromNat v.ops.length))]
 
 def runPathFuncsCase (j : Json) : Json :=
